@@ -54,6 +54,10 @@ class SegDomain(ExactCollections, Domain):
             return b
         if isinstance(objval, Const):
             return ("cmeth", objval, node.attr)
+        if objval == Opaque("sock"):
+            return ("sockmeth", node.attr)
+        if isinstance(node.value, ast.Name) and node.value.id == "errno":
+            return Opaque("errno." + node.attr)
         return TOP
 
     def subscript_load(self, objval, idxval, node, state):
@@ -86,7 +90,9 @@ class SegDomain(ExactCollections, Domain):
         r = self.coll_call(node, fval, args, kwargs, state)
         if r is not None:
             return r
-        if isinstance(fval, FuncRef) and fval.name in self.sources:
+        if isinstance(node.func, ast.Attribute) and node.func.attr == "recv" and fval == ("sockmeth", "recv"):
+            # the socket itself: the next piece of the scenario, then b"" for good (the peer hung up).  The recv helper
+            # and any wrapper around it (hang-up test, chunk generator) are interpreted like the readers themselves
             i = state.get("#pos", 0)
             if i > len(self.pieces) + 1:
                 # the reader was already told twice that the peer hung up (an empty piece) and asks again: it spins
